@@ -180,6 +180,9 @@ pub fn h_mapped_input() {
             // zero-width end-of-input span, which lies between the last token and the end of input
             vcover!(k0 == 1, "mapped: empty match at the end of input after a token");
             vassert!(sp.start == sp.end && lo <= sp.start && sp.start <= hi, "C07/mapped.empty-match-at-the-end-of-input-gets-an-empty-span-after-the-last-token");
+            // C16: a nested parse of a token tree runs on such an input; a failure at its end ("ran out of tokens")
+            // must surface with a well-formed span
+            vassert!(sp.start <= sp.end && sp.start == eoi_pos, "C16/mapped.failure-at-the-end-of-a-nested-input-has-a-well-formed-span");
             vassert!(sp.start == eoi_pos, "C10/mapped.position-at-the-end-of-input-is-the-end-of-input-span");
         } else {
             vassert_finding!(sp.start == sp.end && lo <= sp.start && sp.start <= hi, "C07/mapped.empty-match-gets-an-empty-span-between-its-neighbours");
